@@ -23,7 +23,9 @@ From FT Require Import Base.Dict Model.Edit Model.EditExec Proofs.DictLemmas Pro
 From FT Require Proofs.EditWalk.
 From FT Require Gen.History_gen Proofs.HistoryGen Props.C02.
 From FT Require Proofs.EditBook Proofs.EditUAN Proofs.EditInverseNode.
-From FT Require Proofs.HistoryGeneric Proofs.EditSessions.
+From FT Require Proofs.HistoryGeneric Proofs.EditSessions Proofs.EditSessionsFull Proofs.EditSessionsAll.
+From FT Require Gen.UserActions_gen Proofs.UserActionsTie.
+From FT Require Proofs.EditSessionsFull.
 Import ListNotations.
 Open Scope Z_scope.
 
@@ -279,21 +281,58 @@ Theorem C01_consistent_add_node : forall st n a px force act st',
   user_add_node_core st n a px force = Ok act st' -> TrI W_dict act st st'.
 Proof. exact EditInverseNode.C01_user_add_node_consistent. Qed.
 
-(* ---- whole sessions: with undo / redo interleaved with edge / node edits in any order and number, the
+(* ---- whole sessions: with undo / redo interleaved with ANY edits of the public interface (edge, swap, node,
+        attribute and stroke edits) in any order and number, the
         state after each call is observably the state under the cursor of the list+cursor timeline - every
         undo shows the state before the undone edit, every redo the state after it, also after new edits
         were made in between (statement and hypotheses: C02_sessions_timeline). ---- *)
 Theorem C01_sessions : forall st0 ops,
-  forallb EditSessions.session_fragment ops = true ->
-  WF st0 -> EditSessions.reg_ok st0 -> EditBook.rp_disjoint st0 ->
-  undo_stack st0 = [] -> redo_stack st0 = [] -> EditSessions.pre_along st0 ops ->
+  WF st0 -> EditSessions.reg_ok st0 -> EditBook.rp_disjoint st0 -> EditSessionsFull.rp_decl st0 ->
+  undo_stack st0 = [] -> redo_stack st0 = [] -> EditSessionsAll.pre_along_all st0 ops ->
   forall dS,
-  let t := EditSessions.tl_run st0 {| HistoryGeneric.tl := [st0]; HistoryGeneric.c := 0 |} ops in
+  let t := EditSessionsFull.tl_run_full st0 {| HistoryGeneric.tl := [st0]; HistoryGeneric.c := 0 |} ops in
   (HistoryGeneric.c state t < length (HistoryGeneric.tl state t))%nat /\
   obs_eq (run st0 ops) (nth (HistoryGeneric.c state t) (HistoryGeneric.tl state t) dS) /\
   Forall WF (HistoryGeneric.tl state t) /\
   (exists ext, HistoryGeneric.tl state t = st0 :: ext).
-Proof. exact EditSessions.session_timeline. Qed.
+Proof. exact EditSessionsAll.session_all_timeline. Qed.
+
+(* ---- the seven composite user actions this property quantifies over are, in the model, the code
+        translated on every run from the current user_actions/*.py (Gen/UserActions_gen.v, translator
+        harness/translate_user_actions.py, fail closed): the generated definitions equal the hand-written
+        ones the theorems above are about, for all arguments (UserAddNode: on states whose track lookup
+        lists only nodes, which W_book implies). ---- *)
+Theorem C01_user_actions_are_generated :
+  (forall st u v top, FT.Gen.UserActions_gen.gen_user_delete_edge st u v top = user_delete_edge st u v top) /\
+  (forall st u v force top, FT.Gen.UserActions_gen.gen_user_add_edge st u v force top = user_add_edge st u v force top) /\
+  (forall st n1 n2, FT.Gen.UserActions_gen.gen_user_swap st n1 n2 = user_swap st n1 n2) /\
+  (forall st n new, FT.Gen.UserActions_gen.gen_user_update_attrs st n new = user_update_attrs st n new) /\
+  (forall st n px top, FT.Gen.UserActions_gen.gen_user_delete_node st n px top = user_delete_node st n px top) /\
+  (forall st n a px force top, W_book st ->
+     FT.Gen.UserActions_gen.gen_user_add_node st n a px force top = user_add_node st n a px force top) /\
+  (forall st nv groups T force, FT.Gen.UserActions_gen.gen_user_update_seg st nv groups T force = user_update_seg st nv groups T force).
+Proof.
+  split; [exact FT.Proofs.UserActionsTie.gen_user_delete_edge_eq|]. split; [exact FT.Proofs.UserActionsTie.gen_user_add_edge_eq|].
+  split; [exact FT.Proofs.UserActionsTie.gen_user_swap_eq|]. split; [exact FT.Proofs.UserActionsTie.gen_user_update_attrs_eq|].
+  split; [exact FT.Proofs.UserActionsTie.gen_user_delete_node_eq|].
+  split; [intros st n a px force top WB; exact (FT.Proofs.UserActionsTie.gen_user_add_node_eq st n a px force top (FT.Proofs.UserActionsTie.W_book_book_nodes st WB))|].
+  exact FT.Proofs.UserActionsTie.gen_user_update_seg_eq.
+Qed.
+
+(* ---- strokes and attribute updates in the same robust form, with the stronger invariant SI (dictionaries,
+        lookups, configuration): [TrW a x y] = both ends are well formed and a can be undone / redone any
+        number of times from any SI-state observably equal to the expected end (EditSessionsFull.v; for the
+        stroke the recorded group is replayed against virtual arrays in which the pixels still to be handled
+        carry their old labels).  No precondition on the stroke. ---- *)
+Theorem C01_consistent_paint : forall st nv t idx T force a st',
+  WF st -> EditSessions.reg_ok st -> EditBook.rp_disjoint st ->
+  paint st nv t idx T force = Ok a st' -> EditSessions.TrW a st st'.
+Proof. exact EditSessionsFull.C01_TrW_paint. Qed.
+
+Theorem C01_consistent_update_attrs : forall st n new a st',
+  WF st -> EditSessions.reg_ok st -> EditBook.rp_disjoint st -> EditSessionsFull.rp_decl st ->
+  user_update_attrs_core st n new = Ok a st' -> EditSessions.TrW a st st'.
+Proof. exact EditSessionsFull.C01_TrW_update_attrs. Qed.
 
 Example C01_example_run :
   let s1 := step ex0 (OAddEdge 1 2 false) in
@@ -415,3 +454,6 @@ Print Assumptions C01_consistent_swap.
 Print Assumptions C01_consistent_delete_node.
 Print Assumptions C01_consistent_add_node.
 Print Assumptions C01_sessions.
+Print Assumptions C01_user_actions_are_generated.
+Print Assumptions C01_consistent_paint.
+Print Assumptions C01_consistent_update_attrs.
